@@ -776,7 +776,7 @@ def run(ctx):
     walks = corpus() + [(list(DEFAULT_INIT), D17_WITNESS + [[1]])]
     # bounded exhaustive
     init, paths, nstates = explore(ctx.scale(10, 12), ctx.scale(20000, 200000))
-    ctx.extra["exhaustive"] = {"depth": ctx.scale(10, 12), "product_states": nstates, "paths": len(paths)}
+    ctx.extra["exhaustive_walks"] = {"depth": ctx.scale(10, 12), "product_states": nstates, "paths": len(paths)}
     walks += [(init, p) for p in paths]
     n_ex = len(walks)
     # random walks
